@@ -44,8 +44,12 @@ pub struct Mutant {
 }
 
 pub fn refit_header(b: &mut xz::BlockSpec) {
+    refit_header_with(b, 0)
+}
+
+/// `keep_extra`: surplus padding in bytes (a multiple of four); the header stays within 1024 bytes
+pub fn refit_header_with(b: &mut xz::BlockSpec, keep_extra: usize) {
     // keep the header self-consistent after a size field changed its length
-    let keep_extra = 0usize;
     let mut body = 2;
     if let Some(v) = b.packed_size {
         body += xz::vli_len(v);
@@ -57,7 +61,10 @@ pub fn refit_header(b: &mut xz::BlockSpec) {
         body += xz::vli_len(f.id) + xz::vli_len(f.props.len() as u64) + f.props.len();
     }
     let total = body + 4;
-    let pad = (4 - total % 4) % 4 + keep_extra;
+    let mut pad = (4 - total % 4) % 4 + keep_extra;
+    while body + pad + 4 > 1024 {
+        pad -= 4;
+    }
     b.header_padding = vec![0; pad];
     b.header_size_byte = ((body + pad + 4) / 4 - 1) as u8;
 }
@@ -129,11 +136,20 @@ pub fn field_mutants(spec: &XzSpec) -> Vec<Mutant> {
                 push("block_unpacked_size", cl, s);
             }
         }
+        // every padding byte of the header, however large the header is (up to 1024 bytes): the
+        // first four with three values each, the others with one bit that depends on the position
         for i in 0..b.header_padding.len() {
-            for v in [1u8, 0x80, 0xFF] {
+            let vals: Vec<u8> = if i < 4 { vec![1u8, 0x80, 0xFF] } else { vec![1u8 << (i % 8)] };
+            for v in vals {
                 let mut s = spec.clone();
                 s.blocks[bi].header_padding[i] = v;
-                push("block_header_padding", format!("byte{}={:#04x}", i.min(3), v), s);
+                let pos = match i {
+                    0..=3 => format!("byte{}", i),
+                    4..=31 => "byte4..31".to_string(),
+                    32..=255 => "byte32..255".to_string(),
+                    _ => "byte256..".to_string(),
+                };
+                push("block_header_padding", format!("{}={:#04x}", pos, v), s);
             }
         }
         {
@@ -304,7 +320,20 @@ fn fam_files(ctx: &CaseCtx, cov: &mut Cov) -> CaseOut {
     if ctx.index % 10 == 9 {
         params.max_blocks = 8;
     }
-    let (spec, desc) = gen_xz(&mut rng, &params);
+    // every seventh base file may carry block headers far larger than minimal (legal up to 1024
+    // bytes, all of the surplus is padding that must be zero)
+    if ctx.index % 7 == 3 {
+        params.big_headers = true;
+    }
+    let (mut spec, mut desc) = gen_xz(&mut rng, &params);
+    if ctx.index % 7 == 3 && !spec.blocks.is_empty() {
+        // ... and one block of it certainly does: 32 to 1000 bytes of padding
+        let bi = (ctx.index as usize / 7) % spec.blocks.len();
+        let words = [8usize, 9, 16, 17, 40, 100, 250][(ctx.index as usize / 7) % 7];
+        refit_header_with(&mut spec.blocks[bi], 4 * words);
+        spec.index_records[bi].0 = spec.blocks[bi].unpadded_size();
+        desc = format!("{} [block {} header padded by {} words]", desc, bi, words);
+    }
     let (file, layout) = spec.serialize();
     let plain = spec.plain();
     let check = spec.header_flags[1];
@@ -340,6 +369,9 @@ fn fam_files(ctx: &CaseCtx, cov: &mut Cov) -> CaseOut {
         let (v, o) = run_xz(&bytes);
         out.evals += 1;
         cov.name(&format!("field.{}", m.field), 1);
+        if m.field == "block_header_padding" {
+            cov.name(&format!("header_padding_at.{}", m.class.split('=').next().unwrap_or("?")), 1);
+        }
         out.nontrivial.push(case_hash(&[&bytes]));
         if ctx.verbose && !v.is_err() {
             ctx.say(format!("field {} {} -> {}", m.field, m.class, v.short()));
@@ -651,6 +683,11 @@ fn floors(_: Tier, cov: &Cov) -> Vec<String> {
     }
     if cov.get_named("truncations") == 0 {
         m.push("no truncations".into());
+    }
+    for pos in ["byte0", "byte4..31", "byte32..255", "byte256.."] {
+        if cov.get_named(&format!("header_padding_at.{}", pos)) == 0 {
+            m.push(format!("no header padding fault at {}", pos));
+        }
     }
     m
 }
